@@ -703,6 +703,15 @@ class Evaluator(object):
                 return Ref(st.alloc(v, "const"), ()), off + 8
             finally:
                 self._dec_ctx = saved
+        if k == "adt" and t["adt_kind"] == "enum" and t.get("enum_layout"):
+            # a directly tagged enum: the tag selects the variant; only field-less variants are decoded
+            el = t["enum_layout"]
+            tag = int.from_bytes(b[off + el["tag_offset"]:off + el["tag_offset"] + el["tag_size"]], "little")
+            m_ = (1 << (8 * el["tag_size"])) - 1
+            idx = next((i for i, d in enumerate(el["discrs"]) if (int(d) & m_) == tag), None)
+            if idx is not None and not t["variants"][idx]["fields"]:
+                return EnumV(idx, {idx: ()}), off + el["size"]
+            raise Unsupported("decode constant of enum type %s" % t["s"])
         # tuples and structs: field offsets and size come from the compiler's layout (the fact extractor records them)
         if t.get("offsets") is not None and t.get("size") is not None:
             ftys = t["elems"] if k == "tuple" else ([f["ty"] for f in t["variants"][0]["fields"]] if k == "adt" and t["adt_kind"] == "struct" else None)
@@ -1380,8 +1389,27 @@ class Evaluator(object):
                 return EnumV(ct["variant"], {ct["variant"]: tuple(ctx.args)})
             return ctx.args[0] if len(ctx.args) == 1 else Struct(ctx.args)
         h = self.P.lookup(self.prims, callee)
+        rc = callee.get("res_core")
         if h is not None:
-            return h(self, st, ctx)
+            if not (rc and rc in self.bodies):
+                return h(self, st, ctx)
+            # the primitive unrolls; when it cannot (an iterator whose length is not a constant) the library's own MIR is
+            # evaluated instead, its loop going through the loop summariser like any other
+            snap = st.fork()
+            ncalls, nasserts = len(self.calls), len(self.asserts)
+            try:
+                return h(self, st, ctx)
+            except Unsupported as e:
+                if "symbolic" not in str(e) and "iterat" not in str(e):
+                    raise
+                st.objs, st.world, st.assume = snap.objs, snap.world, snap.assume
+                del self.calls[ncalls:]
+                del self.asserts[nasserts:]
+                depth = ctx.fr.depth + 1 if ctx.fr is not None else 0
+                return self.call_body(st, rc, ctx.args, depth)
+        if rc and rc in self.bodies:
+            depth = ctx.fr.depth + 1 if ctx.fr is not None else 0
+            return self.call_body(st, rc, ctx.args, depth)
         res = callee.get("res")
         if res and res in self.bodies and not (res in self.no_inline or callee.get("rdef") in self.no_inline or callee.get("def") in self.no_inline):
             if self.chain.count(res) >= 2:
